@@ -745,3 +745,14 @@ Lemma embedded_refuted :
   /\ y_route snapshot (s "logLogger") embedded_shape RDirect (s "Fatal") = Recoverable
   /\ y_route snapshot (s "logLogger") [(s "l", false, false, s "*log.Logger")] (RFieldSel (s "l")) (s "Fatal") = Recoverable.
 Proof. repeat split; vm_compute; reflexivity. Qed.
+
+(* ------------------------------------------------------------------ *)
+(** * print builtins: no host stream in any branch of the generators *)
+Lemma builtins_host_free_live : builtins_host_free live = true.
+Proof. vm_compute. reflexivity. Qed.
+
+Lemma builtins_host_free_refuted :
+  builtins_host_free {| t_keys := []; t_bind := []; t_restricted := []; t_extract := []; t_fix := [];
+                        t_builtin := [(s "print", [s "fmt.Fprintf"; s "n.interp.stdout"; s "fmt.Print"]);
+                                      (s "println", [s "fmt.Fprintf"; s "n.interp.stdout"])] |} = false.
+Proof. vm_compute. reflexivity. Qed.
